@@ -20,8 +20,12 @@ MANIFEST_ENTRY = {
              "dispatcher (replies, snapshot-unchanged flags after each request) and the real Config (snapshots of original and "
              "copy after every operation) on every run."),
     "note": ("The interleaving theorem is about the model (one step per source line of _marshaled_single_dispatch that touches "
-             "a Config; Config.copy() is one step); the real-thread stream only samples the schedules the OS produces and is "
-             "oracle-only. JSON parsing, the class translator, jsonclass.dump of results and json.dumps are modelled "
+             "a Config; Config.copy() is one step); the `linesched` stream ties it to the code: handler threads of one real "
+             "dispatcher are interleaved at exactly those source lines under the controlled scheduler (statement-text table, "
+             "fail-closed), EVERY interleaving of two threads for the listed request pairs plus random schedules of three, and "
+             "the model's run_sched on the executed schedule must give the same replies and snapshot flags; the real-thread "
+             "stream additionally samples OS schedules (oracle only). Callables returning a Fault object built by user code are "
+             "part of the model (ReturnFault). JSON parsing, the class translator, jsonclass.dump of results and json.dumps are modelled "
              "components (as in C02-C05); server version in {1.0, 2.0}; the generated default user agent is one opaque value."),
     "technique": "Coq proof over a hand-written executable heap model + differential correspondence check (vm_compute) + property oracle",
     "design_ref": "DESIGN.md 4/C13",
@@ -35,7 +39,8 @@ RULE = ("history: sequences of <= 6 request bodies over %d kinds (1.0-form / 2.0
         "DEFAULT (6 attributes, identity and contents of classes / serialize_handlers) and list of attribute / table writes "
         "after each request. config: every single operation (original = a fresh Config, a copy, a copy of a copy) and every pair of the 10 operations on copy / original, random "
         "sequences of <= 8 operations (before and after copy()), snapshots of both objects after each. threads: 2-4 real "
-        "threads x 3 rounds on one dispatcher. Non-trivial: history exercising the compatibility copy or of length >= 2; "
+        "threads x 3 rounds on one dispatcher. linesched: 2 handler threads, all interleavings at the Config-touching lines for "
+        "4 (quick) / 8 (thorough) request pairs x {own Config 2.0, DEFAULT}; 3 threads, random schedules. Non-trivial: history exercising the compatibility copy or of length >= 2; "
         "config case with >= 1 operation. Distinct by case hash." % len(CS.KINDS))
 TRUSTED = ["modelled, not verified: json.loads / class translation of the bodies (model input: outcome of jsonrpclib.loads), "
            "jsonclass.dump of results, json.dumps, CPython argument binding",
@@ -45,6 +50,9 @@ TRUSTED = ["modelled, not verified: json.loads / class translation of the bodies
 ASSUMPTIONS = ["server Config.version in {1.0, 2.0}", "callables as in C02-C05 (JSON results, ordinary exceptions, failing conversion)",
                "table keys are strings, attribute values JSON values (config stream)"]
 
+EXHAUSTIVE = ("linesched stream: every interleaving of two handler threads at the granularity of Model/Config.v's thread program "
+              "(test / copy / setver / keep / call / reply lines of _marshaled_single_dispatch) for the request pairs listed in "
+              "LineSched.gen; history stream: all sequences of length <= 2 (quick) / 3 (thorough) over the body kinds")
 DKINDS = ["default", "instance-dispatch-attrerror", "custom-raises"]
 CONFIGS = [(True, 1.0), (True, 2.0), (False, 2.0)]          # (own Config?, version)
 
@@ -457,5 +465,275 @@ class Threads(pipeline.Stream):
             yield dict(case, dkind="default")
 
 
+# ====================================================================== line-level schedules
+
+# statement text of SimpleJSONRPCDispatcher._marshaled_single_dispatch -> label of Model/Config.v's thread
+# program (a yield point: the thread parks BEFORE the line) | None (a line that touches no Config).
+# A line of that function whose text is not listed is still a yield point, and marks the run
+# `structure_changed`: the correspondence then fails closed, the oracle still decides.
+SL = None
+SCHED_LINES = {
+    'method = request.get("method")': SL,
+    'params = request.get("params")': SL,
+    'if "jsonrpc" not in request and self.json_config.version >= 2:': "test",
+    'config = self.json_config.copy()': "copy",
+    'config.version = 1.0': "setver",
+    'else:': SL,
+    'config = self.json_config': "keep",
+    'is_notification = "id" not in request or request["id"] in (None, "")': "call",
+    'if is_notification and self.__notification_pool is not None:': SL,
+    'if dispatch_method is not None:': SL,
+    'self.__notification_pool.enqueue(': SL,
+    'dispatch_method, method, params': SL,
+    'self._dispatch, method, params, config': SL,
+    ')': SL,
+    'return None': SL,
+    'try:': SL,
+    'response = dispatch_method(method, params)': SL,
+    'response = self._dispatch(method, params, config)': SL,
+    'except Exception as ex:': SL,
+    'if is_notification:': SL,
+    '_logger.error(': SL,
+    '"Error calling notification method %s: %s:%s",': SL,
+    'method,': SL,
+    'type(ex).__name__,': SL,
+    'ex,': SL,
+    'fault = Fault(': "reply",
+    '-32603,': SL,
+    '"{0}:{1}".format(type(ex).__name__, ex),': SL,
+    'rpcid=request.get("id"),': SL,
+    'rpcid=request["id"],': SL,
+    'config=config,': SL,
+    '_logger.error("Error calling method %s: %s", method, fault)': SL,
+    'return fault.dump()': SL,
+    'return jsonrpclib.dump(': "reply",
+    'response, rpcid=request["id"], is_response=True, config=config': SL,
+    '_logger.error("Error preparing JSON-RPC result: %s", fault)': SL,
+}
+SCHED_FN = "SimpleJSONRPCDispatcher._marshaled_single_dispatch"
+SINGLE_KINDS = ["call-2.0", "call-1.0", "failing-2.0", "failing-1.0", "fault-2.0", "fault-1.0", "unknown-1.0",
+                "notification-2.0", "notification-1.0", "echo-1.0", "bad-arity-1.0"]
+DOC_PREFIXES = ('"' * 3, "'" * 3, "#", ":param", ":return")
+
+
+class PrefixPolicy(object):
+    """follow the given choice indices, then always the first option"""
+
+    def __init__(self, prefix):
+        self.prefix = list(prefix)
+        self.i = 0
+
+    def choose(self, ctl, options):
+        k = self.prefix[self.i] if self.i < len(self.prefix) else 0
+        self.i += 1
+        return min(k, len(options) - 1)
+
+
+class LineSched(pipeline.Stream):
+    """k handler threads inside _marshaled_dispatch of ONE dispatcher, interleaved at the source lines of
+    _marshaled_single_dispatch that touch a Config (harness/sched line tracer): every interleaving of two
+    threads for the listed request pairs, random schedules of three.  Compared with Model/Config.v's
+    run_sched on the executed schedule; the oracle is the statement (reply = the sequential one, form,
+    no configuration written)."""
+    name = "linesched"
+    model_imports = "Dispatch Config"
+    case_type = "scase"
+    check_fn = "c13_sched_check"
+    shard = 200
+
+    def setup(self):
+        import jsonrpclib
+        self.J = jsonrpclib
+        self._seq = {}
+        self.exhausted = {}
+
+    def _mk(self, own, ver, dkind, kinds, prefix):
+        return {"own": own, "ver": ver, "jsonclass": True, "dkind": dkind, "kinds": list(kinds),
+                "bodies": [CS.body_of(k) for k in kinds], "classes": CS.SERVER_TABLES[0], "handlers": CS.SERVER_TABLES[1],
+                "prefix": list(prefix)}
+
+    def gen(self, tier, rng):
+        pairs = [("call-1.0", "call-1.0"), ("call-1.0", "call-2.0"), ("fault-1.0", "failing-1.0"), ("notification-1.0", "echo-1.0")]
+        if tier == "thorough":
+            pairs += [("failing-1.0", "call-2.0"), ("bad-arity-1.0", "unknown-1.0"), ("fault-2.0", "fault-1.0"), ("call-2.0", "call-2.0")]
+        cases = []
+        for pi, ks in enumerate(pairs):
+            for (own, ver) in ([(True, 2.0), (False, 2.0)] if pi < 2 or tier == "thorough" else [(True, 2.0)]):
+                # depth-first enumeration of every interleaving (the run is deterministic given the choices)
+                stack, seen = [[]], 0
+                while stack:
+                    prefix = stack.pop()
+                    c = self._mk(own, ver, "default", ks, prefix)
+                    o = self._run(c)
+                    c["_obs"] = o
+                    cases.append(c)
+                    seen += 1
+                    ch = o["choices"]
+                    for pos in range(len(prefix), len(ch)):
+                        n, k = ch[pos]
+                        for alt in range(k + 1, n):
+                            stack.append([x[1] for x in ch[:pos]] + [alt])
+                    if seen >= 1500:
+                        # (a changed function may have more yield points than foreseen: the enumeration of this
+                        # pair is then budget-limited, which the evidence says; what was explored is still judged)
+                        break
+                self.exhausted["%s | %s | %s v%s" % (ks[0], ks[1], "own" if own else "DEFAULT", ver)] = (
+                    seen if not stack else "budget-limited after %d" % seen)
+        for _ in range(60 if tier == "quick" else 1500):
+            own, ver = rng.choice(CONFIGS)
+            ks = [rng.choice(SINGLE_KINDS) for _ in range(3)]
+            if not any(k.endswith("1.0") for k in ks):
+                ks[0] = "call-1.0"
+            cases.append(self._mk(own, ver, rng.choice(["default", "custom-raises", "default"]), ks,
+                                  [rng.randrange(3) for _ in range(18)]))
+        return cases
+
+    def _sequential(self, case, body):
+        key = json.dumps([case["own"], case["ver"], case["dkind"], body])
+        if key not in self._seq:
+            sc = CS.ServerConfig(case["own"], case["ver"], case["jsonclass"], case["classes"], case["handlers"])
+            try:
+                rt = K.Runtime(_dcase(case), config=sc.server)
+                try:
+                    self._seq[key] = CS.reply_skeleton(rt.run(body))
+                finally:
+                    rt.close()
+            finally:
+                sc.restore()
+        return self._seq[key]
+
+    def _run(self, case):
+        from harness import sched as SC
+        import jsonrpclib.SimpleJSONRPCServer as SRV
+        unknown = []
+
+        def hook(frame):
+            q, ln, text = SC.line_info(frame)
+            if q != SCHED_FN:
+                return None
+            if text in SCHED_LINES:
+                return SCHED_LINES[text]
+            if not text or text.startswith(DOC_PREFIXES):
+                return None
+            unknown.append((ln, text))
+            return "?" + text
+
+        sc = CS.ServerConfig(case["own"], case["ver"], case["jsonclass"], case["classes"], case["handlers"])
+        try:
+            rt = K.Runtime(_dcase(case), config=sc.server)
+            try:
+                ctl = SC.Controller(policy=PrefixPolicy(case["prefix"]), fire="quiescent", line_hook=hook, max_steps=400, op_yield=False)
+                ctl.trace_files.add(SRV.__file__)
+                n = len(case["bodies"])
+                res = [None] * n
+
+                def work(i, body):
+                    raised, text = None, None
+                    try:
+                        text = rt.disp._marshaled_dispatch(body, rt.dm)
+                    except Exception as ex:    # noqa
+                        raised = ex
+                    res[i] = {"raised": raised, "text": text}
+                for i, b in enumerate(case["bodies"]):
+                    ctl.spawn("h%d" % i, lambda i=i, b=b: work(i, b))
+                sc.arm(True)
+                try:
+                    r = ctl.run()
+                finally:
+                    sc.arm(False)
+                sd, dd = sc.flags()
+                writes = (list(sc.rec_server.writes), list(sc.rec_default.writes))
+                pos = [K.parse_outcome(self.J, b, rt.config) for b in case["bodies"]]
+            finally:
+                rt.close()
+        finally:
+            sc.restore()
+        return {"status": r.status, "trace": [(t, l) for (t, l) in r.trace], "choices": list(r.choices),
+                "replies": res, "server_diff": sd, "default_diff": dd, "server_writes": writes[0], "default_writes": writes[1],
+                "unknown": unknown, "po": pos, "errors": [repr(e) for e in r.errors]}
+
+    def run_impl(self, case):
+        o = case.pop("_obs", None)
+        if o is None:
+            o = self._run(case)
+        o["expected"] = [self._sequential(case, b) for b in case["bodies"]]
+        return o
+
+    def oracle(self, case, obs):
+        if obs["status"] != "done" or obs["errors"]:
+            return ("C13:sched-run-did-not-finish", "status %s, errors %s" % (obs["status"], obs["errors"]))
+        own_form = "2.0" if case["ver"] >= 2 else "1.0"
+        for i, (r, e) in enumerate(zip(obs["replies"], obs["expected"])):
+            g = CS.reply_skeleton(r) if r is not None else ("no-result",)
+            if g != e:
+                return ("C13:concurrent-reply-differs", "thread %d (%s) under schedule %s: reply %r, sequential reply %r" % (
+                    i, case["kinds"][i], [t for (t, l) in obs["trace"]], g, e))
+            if g[0] == "one":
+                req = json.loads(case["bodies"][i])
+                exp = own_form if "jsonrpc" in req else "1.0"
+                if CS.form_of(g[1]) != exp:
+                    return ("C13:reply-form", "thread %d (%s): reply has form %s, expected %s: %r" % (
+                        i, case["kinds"][i], CS.form_of(g[1]), exp, g[1]))
+        if obs["server_diff"] is not None:
+            return ("C13:server-config-changed", "after the schedule: server Config.%s differs" % obs["server_diff"])
+        if obs["default_diff"] is not None:
+            return ("C13:default-config-changed", "after the schedule: config.DEFAULT.%s differs" % obs["default_diff"])
+        if obs["server_writes"]:
+            return ("C13:server-config-written", "writes to the server Config under the schedule: %s" % obs["server_writes"][:5])
+        if obs["default_writes"]:
+            return ("C13:default-config-written", "writes to config.DEFAULT under the schedule: %s" % obs["default_writes"][:5])
+        return None
+
+    def encode(self, case, obs):
+        from harness.core import gallina as G
+        if obs["unknown"]:
+            # the anchored function has statements the label table does not know: fail closed
+            return "(mkSCase (mkHCase true VNone VNone [] [] [] (mkReg [] None) None [] []) [])"
+        try:
+            dcase = _dcase(case)
+            sched = [int(t[1:]) for (t, l) in obs["trace"]]
+            fl = "%s, %s" % (G.g_bool(obs["server_diff"] is None), G.g_bool(obs["default_diff"] is None))
+            items = ["(%s, %s)" % (K.g_oreply(dcase, r), fl) for r in obs["replies"]]
+            h = "(mkHCase %s %s %s %s %s %s %s %s %s %s)" % (
+                G.g_bool(case["own"]), G.g_val(case["ver"]), G.g_val(case["jsonclass"]),
+                CS.g_table(case["classes"]), CS.g_table(case["handlers"]),
+                G.g_list([K.g_cdesc(d) for d in dcase["table"]]), K.g_reg(dcase), G.g_option(dcase.get("dm"), K.g_nat),
+                G.g_list([K.g_input(p) for p in obs["po"]]), G.g_list(items))
+            return "(mkSCase %s %s)" % (h, G.g_list(["%d%%nat" % t for t in sched]))
+        except (ValueError, TypeError):
+            return None
+
+    def nontrivial(self, case, obs):
+        return len(set(t for (t, l) in obs["trace"])) >= 2
+
+    def kind(self, case, obs):
+        return "%d threads / %s v%s / %s" % (len(case["bodies"]), "own" if case["own"] else "DEFAULT", case["ver"],
+                                             "structure-changed" if obs["unknown"] else "aligned")
+
+    def describe(self, case, obs):
+        return {"server_config": "own Config" if case["own"] else "jsonrpclib.config.DEFAULT", "server_version": case["ver"],
+                "dispatch": case["dkind"], "kinds": case["kinds"], "bodies": case["bodies"],
+                "schedule": ["%s:%s" % tl for tl in obs["trace"]],
+                "replies": [None if r is None else (type(r["raised"]).__name__ if r["raised"] is not None else r["text"])
+                            for r in obs["replies"]],
+                "sequential": ser.to_json(obs["expected"]), "unknown_statements": obs["unknown"][:5],
+                "server_writes": obs["server_writes"], "default_writes": obs["default_writes"]}
+
+    def to_replay(self, case):
+        return ser.to_json({k: v for k, v in case.items() if k != "_obs"})
+
+    def shrink(self, case):
+        if len(case["bodies"]) > 2:
+            for i in range(len(case["bodies"])):
+                yield dict(case, bodies=case["bodies"][:i] + case["bodies"][i + 1:], kinds=case["kinds"][:i] + case["kinds"][i + 1:])
+        p = case["prefix"]
+        for i in range(len(p)):
+            if p[i]:
+                yield dict(case, prefix=p[:i] + [0] + p[i + 1:])
+
+    def widen(self, rng):
+        return list(self.gen("quick", rng))
+
+
 def streams():
-    return [History(), ConfigOps(), Threads()]
+    return [History(), ConfigOps(), Threads(), LineSched()]
